@@ -44,6 +44,7 @@ EXTRA_KINDS = DEPTH_KINDS + SELECT_EXTRA
 class Attr:
     def __init__(self, name, kind, optional=False, target=None, owner=None):
         self.name, self.kind, self.optional, self.target, self.owner = name, kind, optional, target, owner
+        self.redef_name = None      # "<supertype>.<attr>" when this position is redeclared by the entity at hand
 
     @property
     def base(self):
@@ -88,7 +89,8 @@ class Attr:
              "SELECT_M": "sel_m", "AGG_INT": "LIST [0:?] OF INTEGER", "AGG_REAL": "SET [0:?] OF REAL",
              "AGG_STR": "LIST [0:?] OF STRING", "AGG_SEL": "LIST [0:?] OF sel_m", "AGG_SELE": "SET [0:?] OF sel_e",
              "AGG_AGG": "LIST [0:?] OF LIST [0:?] OF INTEGER", "BINARY": "BINARY",
-             "SELECT_L": "sel_l", "SELECT_N": "sel_out", "SELECT_R": "sel_r", "AGG_SELL": "LIST [0:?] OF sel_l"}.get(k)
+             "SELECT_L": "sel_l", "SELECT_N": "sel_out", "SELECT_R": "sel_r", "AGG_SELL": "LIST [0:?] OF sel_l",
+             "SELECT_S": "sel_n"}.get(k)
         if t:
             return t
         if k == "ENTITY":
@@ -101,8 +103,9 @@ class Attr:
 
 
 class Entity:
-    def __init__(self, name, supertype=None, attrs=None, andor_root=False, andor_member=False):
+    def __init__(self, name, supertype=None, attrs=None, andor_root=False, andor_member=False, redecl=None):
         self.name, self.supertype, self.attrs = name, supertype, attrs or []
+        self.redecl = redecl or []       # [(supertype name, Attr with the narrower type)]  `SELF\super.attr : narrower;`
         self.andor_root, self.andor_member = andor_root, andor_member
         for a in self.attrs:
             a.owner = name
@@ -125,8 +128,17 @@ class Schema:
         return False
 
     def all_attrs(self, name):
+        """attribute POSITIONS of an internally mapped instance (a redeclaration does not add a position; it narrows the
+        type at the inherited one; the C++ class additionally carries a redefining attribute `<super>.<attr>`)"""
         e = self.by_name[name]
-        return (self.all_attrs(e.supertype) if e.supertype else []) + list(e.attrs)
+        inherited = self.all_attrs(e.supertype) if e.supertype else []
+        for sup, na in e.redecl:
+            for k, a in enumerate(inherited):
+                if a.name == na.name:
+                    c = Attr(na.name, na.kind, a.optional, na.target, a.owner)
+                    c.redef_name = f"{sup}.{na.name}"
+                    inherited[k] = c
+        return inherited + list(e.attrs)
 
     def kind_table(self):
         return {e.name.upper(): [(a.name, a.base, a.optional) for a in self.all_attrs(e.name)] for e in self.entities}
@@ -152,6 +164,8 @@ class Schema:
                     "TYPE sel_in = SELECT (ent_list, len_t); END_TYPE;",
                     f"TYPE sel_out = SELECT (sel_in, {t[1]}); END_TYPE;",
                     "TYPE sel_r = sel_e; END_TYPE;", ""]
+        if "t0s" in self.by_name:
+            out += ["TYPE sel_n = SELECT (t0s); END_TYPE;", ""]
         for e in self.entities:
             subs = self.subtypes(e.name)
             line = f"ENTITY {e.name}"
@@ -162,6 +176,8 @@ class Schema:
             if e.supertype:
                 line += f"\n  SUBTYPE OF ({e.supertype})"
             out.append(line + ";")
+            for sup, na in e.redecl:
+                out.append(f"  SELF\\{sup}.{na.name} : {na.express_type()};")
             for a in e.attrs:
                 out.append(f"  {a.name} : {'OPTIONAL ' if a.optional else ''}{a.express_type()};")
             out.append("END_ENTITY;")
@@ -194,7 +210,7 @@ KIND_POOL = (SIMPLE + ["DEF_REAL", "DEF_INT", "ENUM", "ENTITY", "ENTITY", "SELEC
 
 
 def gen_schema(rng, name="vs", n_entities=6, max_attrs=4, kinds=None, p_optional=0.4, with_complex=True,
-               cover_all_kinds=False, extra=False):
+               cover_all_kinds=False, extra=False, with_redecl=False):
     """A schema with 2 reference-target leaf entities (t0, t1), a ONEOF chain, free entities and (optionally) one
     ANDOR family (cx_root with members cx_a, cx_b, cx_c).  `kinds` restricts the attribute shapes."""
     kinds = list(kinds or (list(KIND_POOL) + (list(EXTRA_KINDS) if extra else [])))
@@ -240,6 +256,16 @@ def gen_schema(rng, name="vs", n_entities=6, max_attrs=4, kinds=None, p_optional
         ents.append(Entity("cx_root", None, attrs(rng.randint(1, 2)), andor_root=True))
         for m in ("cx_a", "cx_b", "cx_c"):
             ents.append(Entity(m, "cx_root", attrs(rng.randint(1, 3)), andor_member=True))
+    if with_redecl:
+        # a subtype that redeclares inherited entity-valued attributes with narrower types (entity, aggregate of entity, select)
+        ents.append(Entity("t0s", "t0", [Attr("t0s_rank", "INTEGER", False)]))
+        ents.append(Entity("rh", None, [Attr("rh_label", "STRING", False), Attr("rh_content", "ENTITY", False, "t0"),
+                                        Attr("rh_items", "AGG_ENT", False, "t0"), Attr("rh_choice", "SELECT_E", False),
+                                        Attr("rh_opt", "ENTITY", True, "t1")]))
+        ents.append(Entity("rhs", "rh", attrs(rng.randint(0, 2)),
+                           redecl=[("rh", Attr("rh_content", "ENTITY", False, "t0s")),
+                                   ("rh", Attr("rh_items", "AGG_ENT", False, "t0s")),
+                                   ("rh", Attr("rh_choice", "SELECT_S", False))]))
     return Schema(name, ents, ["t0", "t1"], extra)
 
 
@@ -298,6 +324,8 @@ def gen_value(rng, attr, schema, pool):
         k = b
     if k == "SELECT_R":
         return ref(rng.choice(schema.targets[:2]))
+    if k == "SELECT_S":
+        return ref("t0s")
     if k in ("SELECT_L", "SELECT_N", "AGG_SELL"):
         def one(nested):
             c = sorted({i for n, ids in pool.items() if schema.is_a(n, schema.targets[0]) for i in ids})
@@ -360,8 +388,10 @@ def gen_value(rng, attr, schema, pool):
 
 
 class Inst:
-    def __init__(self, id, parts):
+    def __init__(self, id, parts, comment=None):
         self.id, self.parts = id, parts            # parts: [(NAME, [values])]
+        self.comment = comment                     # Part 21 comment(s) in front of the instance, as the writer spells
+                                                   # them: "/*text*/" (several: joined by newline); None = no comment
 
     @property
     def is_complex(self):
@@ -371,7 +401,7 @@ class Inst:
         return self.parts[0][0] if not self.is_complex else "(" + "&".join(p[0] for p in self.parts) + ")"
 
     def copy(self):
-        return Inst(self.id, [(n, list(vs)) for n, vs in self.parts])
+        return Inst(self.id, [(n, list(vs)) for n, vs in self.parts], self.comment)
 
 
 def part_attrs(schema, inst, pi):
@@ -399,7 +429,7 @@ def gen_population(rng, schema, n, ids=None, p_null_optional=0.3, p_complex=0.25
                 shapes.append(sorted(rng.choice(cx)))
             else:
                 shapes.append([rng.choice(simple)])
-    for t in schema.targets:
+    for t in list(schema.targets) + (["t0s"] if "t0s" in schema.by_name else []):
         have = sum(1 for s in shapes if s == [t])
         shapes += [[t]] * max(0, min_targets - have)
     rng.shuffle(shapes)
@@ -459,7 +489,7 @@ def inst_refs(inst):
 
 
 def shift_inst(inst, k):
-    return Inst(inst.id + k, [(n, [map_refs(v, lambda r: r + k) for v in vs]) for n, vs in inst.parts])
+    return Inst(inst.id + k, [(n, [map_refs(v, lambda r: r + k) for v in vs]) for n, vs in inst.parts], inst.comment)
 
 
 # ------------------------------------------------------------------ rendering
@@ -488,7 +518,7 @@ def render_inst(inst, sp=lambda: ""):
     else:
         n, vs = inst.parts[0]
         body = f"{n}{sp()}({sp()}" + f"{sp()},{sp()}".join(render_val(v) for v in vs) + f"{sp()})"
-    return f"#{inst.id}{sp()}={sp()}{body}{sp()};"
+    return (inst.comment + "\n" if inst.comment else "") + f"#{inst.id}{sp()}={sp()}{body}{sp()};"
 
 
 HEADER = ("HEADER;\nFILE_DESCRIPTION((''),'2;1');\nFILE_NAME('','2000-01-01T00:00:00',(''),(''),'','','');\n"
@@ -519,6 +549,7 @@ def render(schema_name, insts, layout_rng=None, working=None):
 class _P:
     def __init__(self, s):
         self.s, self.i = s, 0
+        self.comments = None        # when a list: ws() appends the comments it skips
 
     def ws(self):
         s = self.s
@@ -527,6 +558,8 @@ class _P:
                 self.i += 1
             elif s.startswith("/*", self.i):
                 j = s.find("*/", self.i + 2)
+                if self.comments is not None:
+                    self.comments.append(s[self.i:(len(s) if j < 0 else j + 2)])
                 self.i = len(s) if j < 0 else j + 2
             else:
                 break
@@ -634,6 +667,7 @@ def parse_p21(text):
     p.i = d + 5
     out = []
     while True:
+        p.comments = []
         c = p.peek()
         if text.startswith("ENDSEC", p.i):
             break
@@ -642,6 +676,7 @@ def parse_p21(text):
             st = c
             p.i += 1
         p.eat("#")
+        cm, p.comments = ("\n".join(p.comments) or None), None
         m = re.compile(r"\s*(-?\d+)").match(text, p.i)
         p.i = m.end()
         iid = int(m.group(1))
@@ -657,8 +692,19 @@ def parse_p21(text):
             n = p.ident()
             parts = [(n.upper(), p.params())]
         p.eat(";")
-        out.append((st, Inst(iid, parts)))
+        out.append((st, Inst(iid, parts, cm)))
     return ft, header, out
+
+
+def add_comments(rng, insts, p=0.3):
+    """give some instances a Part 21 comment (in the spelling the writer reproduces)"""
+    out = []
+    for k, i in enumerate(insts):
+        c = i.copy()
+        if rng.random() < p:
+            c.comment = rng.choice([f"/*note {k}*/", f"/*c{k}, with (punctuation); #7 = 'x'*/", f"/*first {k}*/\n/*second*/"])
+        out.append(c)
+    return out
 
 
 def tok_equal(a, b):
